@@ -19,3 +19,11 @@ reg('C04', 'exploration',
     'independent reference (position-coded content); plus seeded long histories and the one-shot function. Held on the '
     'executions produced; the residue x length sub-space is enumerated completely in the thorough tier.',
     'Trusts vmon/ref/blocking.py (validated against the mciipm docstring example) and io.BytesIO.')
+
+reg('C05', 'fault_enumeration',
+    'runtime monitor: real Unblock1014/unblock_1014 driven over enumerated read histories and trailer/truncation faults, compared with a payload-stream model',
+    'Every residue of bytes already delivered (quick: 100, thorough: all 1012) x three chunkings x every next read size '
+    '1..2024 on 1-, 2-, 3- and 5-block files (one with a short last chunk), read() with no size at every residue, seeded '
+    'long sequences; unblock_1014 is fed every truncation length of 1..4-block files and every wrong value of every trailer '
+    'byte. Each returned slice is compared with the reference payload stream. Held on the executions produced.',
+    'Trusts vmon/ref/blocking.py and io.BytesIO. Read sizes 0/negative are outside the statement; read(None) judged only if it returns.')
